@@ -33,8 +33,9 @@
 
    Modes:  "exh"   every v in 0 .. 2^W - 1  (W <= 12): calls b2g(v), g2b(v)
            "pairs" every pair (u, v) (W <= 6): additivity, err(u, v)
-           "basis" W-bit (W = 62) one-hot, 2^k - 1, all-ones and NRand seeded vectors; err on
-                   seeded pairs
+           "basis" W-bit (W = 62) one-hot, 2^k - 1, 2^k + 1, all-ones and NRand seeded vectors; err on
+                   seeded pairs, incl. pairs of DIFFERENT widths (v mod 2^w against v, w a storage
+                   width 7/8/15/16/31) - the count is about values, not about how they are stored
    Emission (stage R): one VCASE line per returned call with argument(s) and exact result. *)
 EXTENDS Integers, Sequences, FiniteSets, FiniteSetsExt, TLC, Emit
 
@@ -84,7 +85,10 @@ Domain ==
   CASE Mode = "exh"   -> {OfInt(n) : n \in 0..(2 ^ W - 1)}
     [] Mode = "pairs" -> {OfInt(n) : n \in 0..(2 ^ W - 1)}
     [] Mode = "basis" -> {OneHot(j) : j \in Idx} \cup {LowOnes(j) : j \in Idx} \cup {Zero}
+                         \cup {Xor(OneHot(j), OneHot(1)) : j \in Idx}          \* 2^(j-1) + 1
                          \cup {RandVec(n) : n \in 1..NRand}
+Trunc(v, w) == [k \in Idx |-> IF k <= w THEN v[k] ELSE 0]     \* v mod 2^w
+Widths == {7, 8, 15, 16, 31} \cap Idx                         \* storage widths of the usual integer types
 PairDomain ==
   CASE Mode = "pairs" -> Domain \X Domain
     [] Mode = "exh"   -> {<<OfInt(n), OfInt((n * 37 + 11) % (2 ^ W))>> : n \in 0..(2 ^ W - 1)}
@@ -93,6 +97,9 @@ PairDomain ==
                          \cup {<<OneHot(j), RandVec(1 + (j % NRand))>> : j \in Idx}
                          \cup {<<AllOnes, LowOnes(j)>> : j \in Idx}
                          \cup {<<LowOnes(j), Zero>> : j \in Idx} \cup {<<RandVec(n), Zero>> : n \in 1..NRand}
+                         \* operands of different widths: the low w bits of a vector against the whole vector
+                         \cup {<<Trunc(RandVec(n), w), RandVec(n)>> : n \in 1..NRand, w \in Widths}
+                         \cup {<<Trunc(RandVec(n), w), Trunc(RandVec(n + 1), 2 * w)>> : n \in 1..NRand, w \in Widths}
 
 (* ------------------------------------- machine ------------------------------------------ *)
 VARIABLES pc,    \* 0 idle, 1..Len(Sh) next cascade step, -1 returned
@@ -151,6 +158,9 @@ CascadeLoopInv ==
 
 \* bit-error count = Hamming distance
 HammingLaw == Done("err") => ret = Ham(call.u, call.v)
+
+\* the count does not depend on the order of the two operands
+SymmetryLaw == Done("err") => ret = ErrCode(call.v, call.u)
 
 \* GF(2)-linearity of the three maps (all pairs of the domain: use with small W / few vectors)
 RECURSIVE CascadeFrom(_, _)
